@@ -893,6 +893,7 @@ var c07Corpus = []struct {
 	{"index of a loop variable shadowed by a let", true, "{namespace ns}\n/** @param p */\n{template .t}\n{foreach $x in [1,2]}{let $x: $p /}{index($x)}{/foreach}\n{/template}\n"},
 	{"index of a param", false, "{namespace ns}\n/** @param p */\n{template .t}\n{index($p)}\n{/template}\n"},
 	{"isLast of a let", false, "{namespace ns}\n/** @param p */\n{template .t}\n{$p}{let $x: 1 /}{if isLast($x)}y{/if}\n{/template}\n"},
+	{"template name defined twice", false, "{namespace ns}\n/** @param p */\n{template .t}\n{$p}\n{/template}\n/** @param p */\n{template .t}\n{$p}\n{/template}\n"},
 	{"let inside msg", true, "{namespace ns}\n/** @param p */\n{template .t}\n{msg desc=\"d\"}{$p} and {$p}{/msg}\n{/template}\n"},
 }
 
